@@ -206,3 +206,16 @@ Print Assumptions C13_cd_objective_matches_definition.
 Example C13_cd_definition_nonvacuous :
   map shown (cd_col (X := EQx) [Fin 0; Fin 1; Fin 2; Fin 4]) = [None; Some (1 # 2); Some (3 # 4); None]%Q.
 Proof. vm_compute. reflexivity. Qed.
+
+(* ---- known finding metrics/dup-eps-absolute: the metrics are defined on range-normalised objectives, yet the duplicate filter of
+   FunctionalDiversity._do compares raw distances with the absolute tolerance 1e-32.  The same front in two units: with the
+   objectives multiplied by 2^-120 the two boundary points other than the first are filtered as "duplicates" and get 0
+   instead of +inf (binary64 instance of the wrapper model around the pure-Python mnn; replayed on the implementation). ---- *)
+Definition W_units : list (list float) := [[1; 0]; [0; 1]; [0.5; 0.5]]%float.
+Definition W_tiny : list (list float) := [[0x1p-120; 0]; [0; 0x1p-120]; [0x1p-121; 0x1p-121]]%float.
+Definition eps32 : float := (0x1.9f623d5a8a732p-107)%float.      (* 1e-32 *)
+Theorem C13_tiny_units_refuted :
+  functional_diversity (X := Fx) eps32 true true (fun F => Some (fallback_mnn (X := Fx) false F 0%Z)) W_units = Some [infinity; infinity; 0.25]%float /\
+  functional_diversity (X := Fx) eps32 true true (fun F => Some (fallback_mnn (X := Fx) false F 0%Z)) W_tiny = Some [infinity; 0; 0]%float.
+Proof. split; vm_compute; reflexivity. Qed.
+Print Assumptions C13_tiny_units_refuted.
